@@ -1013,10 +1013,10 @@ func (e *SpecEnv) call(x *spec.Call) Val {
 			_, unbox := vc.evBox(srt)
 			return Val{T: t, Sort: sortIfSpec(t, srt), Term: fmt.Sprintf("(%s (ev_arg (select %s %s)))", unbox, e.state().cells[tc], argT(0))}
 		}
-	case "evRecv", "evErr", "evS1", "evS2":
+	case "evRecv", "evErr", "evS1", "evS2", "evS3":
 		if need(1) {
 			tc, _ := vc.traceCells(e.state())
-			sel := map[string]string{"evRecv": "ev_recv", "evErr": "ev_err", "evS1": "ev_s1", "evS2": "ev_s2"}[fname]
+			sel := map[string]string{"evRecv": "ev_recv", "evErr": "ev_err", "evS1": "ev_s1", "evS2": "ev_s2", "evS3": "ev_s3"}[fname]
 			term := fmt.Sprintf("(%s (select %s %s))", sel, e.state().cells[tc], argT(0))
 			switch fname {
 			case "evRecv":
